@@ -234,7 +234,16 @@ func runC05(c *core.Ctx, crashes bool) {
 				amt = 0
 				w.Stats.Inc("zero-amount-send")
 			}
-			if r := e.MtTransfer(n, users[b.Owner], b.Class, b.ID, amt, recv, d.Name, relay); r.OK() {
+			dest := d.Name
+			switch ch.Int(25) { // a next hop the sending chain has no client of: the send must fail as a whole
+			case 1:
+				dest = "chain-zzz9"
+				w.Stats.Inc("send-to-unknown-destination")
+			case 2:
+				relay = "chain-yyy9"
+				w.Stats.Inc("send-via-unknown-relay")
+			}
+			if r := e.MtTransfer(n, users[b.Owner], b.Class, b.ID, amt, recv, dest, relay); r.OK() {
 				xfers++
 				if amt >= 1<<63 {
 					w.Stats.Inc("probe-amount>=2^63")
